@@ -247,6 +247,7 @@ fn maps_of(a: &Assembled) -> (Vec<(String, bool, usize)>, Vec<(String, usize)>) 
 }
 
 pub fn eval(c: &Case11) -> CaseOutcome {
+    let mut macro_classes: Vec<String> = Vec::new();
     let id = |s: &str| s.to_string();
     let prog = build(c, &id);
     let lay1 = crate::progs::Layout { choices: c.ch1.clone(), comments: false, trailing_newline: true, pack_lines: c.pack };
@@ -279,6 +280,72 @@ pub fn eval(c: &Case11) -> CaseOutcome {
         };
         return CaseOutcome::Fail { key: "c11|spelling|different-output".into(), what, replay: json!({"kind":"c11","source":r2.text,"other_spelling":r1.text}) };
     }
+    // third form: immediate constants reach their instruction as the argument of a macro (spelled in any radix); the
+    // instruction list is the one of the macro-free program
+    {
+        let mut ch = Choices::new(c.ch2.iter().rev().cloned().collect());
+        let mut defs: Vec<Item> = Vec::new();
+        let mut code_m: Vec<Item> = Vec::new();
+        let mut wrapped = 0usize;
+        for it in &prog.code {
+            match it {
+                Item::Ins(i) if i.mn != "int" && i.prefix.is_none() && ch.next() % 3 != 0 => {
+                    if let Some(k) = i.ops.iter().position(|o| matches!(o, Opd::Imm(..))) {
+                        if let Opd::Imm(v, kind) = &i.ops[k] {
+                            let v = match kind {
+                                ImmKind::UB | ImmKind::SB => *v & 0xFF,
+                                _ => *v,
+                            };
+                            let mut body = i.clone();
+                            body.ops[k] = Opd::Name("q".into());
+                            let name = format!("k_{}", defs.len());
+                            let mut fixed = Choices::fixed();
+                            let body_text = render_insn(&body, &mut fixed, &[]);
+                            // the text of a macro body ends at the first '<-' and cannot hold a '-' (negative displacement)
+                            if body_text.contains('-') || body_text.contains('<') {
+                                code_m.push(it.clone());
+                                continue;
+                            }
+                            defs.push(Item::MacroDef { name: name.clone(), params: vec!["q".into()], body_src: format!(" {} ", body_text) });
+                            code_m.push(Item::MacroUse { name, args: vec![render_unsigned(v as u32, &mut ch, &[])], expands_to: vec![i.clone()] });
+                            wrapped += 1;
+                            continue;
+                        }
+                    }
+                    code_m.push(it.clone());
+                }
+                _ => code_m.push(it.clone()),
+            }
+        }
+        if wrapped > 0 {
+            let mut code = defs;
+            code.extend(code_m);
+            let prog_m = Program { data: prog.data.clone(), code };
+            let rm = render_program(&prog_m, &lay1);
+            match assemble(&rm.text) {
+                Err(e) => {
+                    return CaseOutcome::Fail {
+                        key: "c11|constant-as-macro-argument|rejected".into(),
+                        what: format!("a program is accepted with its constants written in place and rejected when the same constants are macro arguments: {}", e.chars().take(200).collect::<String>()),
+                        replay: json!({"kind":"c11","source":rm.text,"other_spelling":r1.text}),
+                    }
+                }
+                Ok(am) => {
+                    if am.code != a1.code || am.data != a1.data {
+                        let k = (0..a1.code.len().max(am.code.len())).find(|k| a1.code.get(*k) != am.code.get(*k));
+                        return CaseOutcome::Fail {
+                            key: "c11|constant-as-macro-argument|different-output".into(),
+                            what: format!("constants passed as macro arguments change instruction {:?}: {:?} vs {:?} written in place", k, k.and_then(|k| am.code.get(k)), k.and_then(|k| a1.code.get(k))),
+                            replay: json!({"kind":"c11","source":rm.text,"other_spelling":r1.text}),
+                        };
+                    }
+                }
+            }
+        }
+        if wrapped > 0 {
+            macro_classes.push("c11/constants-as-macro-arguments".to_string());
+        }
+    }
     // renaming: every code label gets a different name; nothing but the names may change
     let ren = |s: &str| if s == "start" { s.to_string() } else { format!("{}_R9", s) };
     let prog3 = build(c, &ren);
@@ -299,7 +366,7 @@ pub fn eval(c: &Case11) -> CaseOutcome {
     let (u1, x1, s1) = r1.spelling;
     let (u2, x2, s2) = r2.spelling;
     let nt = r1.text != r2.text && u1 + u2 >= 1 && x1 + x2 >= 1 && s1 + s2 >= 1 && has_mem && has_imm;
-    let mut classes = vec![];
+    let mut classes = macro_classes;
     if used_case_variants(&prog) {
         classes.push("c11/labels-differing-only-in-case".to_string());
     }
@@ -422,6 +489,7 @@ pub fn run(ctx: &Ctx) {
     ctx.require_class("c11/offset-spelling", 50);
     ctx.require_class("c11/negative-decimal", 200);
     ctx.require_class("c11/no-trailing-newline", 200);
+    ctx.require_class("c11/constants-as-macro-arguments", 500);
     if !cli_available() {
         ctx.harness_error("CLI binary not built");
         return;
